@@ -2970,7 +2970,7 @@ class C13(TraceCheck):
         nvars = rng.randrange(1, 5)
         ops = []
         for _ in range(rng.randrange(3, 25)):
-            k = rng.choice(["add", "add", "sub", "neg", "mul", "mul"])
+            k = rng.choice(["add", "add", "sub", "neg", "mul", "mul", "one", "zero"])
             a = rng.randrange(0, 64)
             b = a if rng.random() < 0.15 else rng.randrange(0, 64)
             sc = rng.choice([0, 1, -1, 2, 3, -7, 12345, p - 1, p, p + 1, -p, (1 << 256) + 5, rng.randrange(p)])
@@ -3051,7 +3051,14 @@ class C13(TraceCheck):
             nops = 0
             for k, ai, bi, sc in case["ops"]:
                 a, bb = ai % len(pool), bi % len(pool)
-                if k == "add":
+                if k == "one":
+                    # a fresh call: a cached constant object that an earlier operation altered would show here
+                    r = b.one()
+                    mr = {ok: 1}
+                elif k == "zero":
+                    r = b.zero()
+                    mr = {}
+                elif k == "add":
                     r = pool[a] + pool[bb]
                     mr = dict(model[a])
                     for kk, c in model[bb].items():
